@@ -40,6 +40,7 @@ SOAK = True   # also judged by the whole-run monitors of the soak sessions (vf/s
 BUDGET = {"quick": 110, "thorough": 1500}
 
 TIMELINES = ["cold_refuse", "latency3", "handshake", "handshake_bytes", "slow_handshake",
+             "cmd_pending",
              "steady", "backoff",
              "hb_reset", "wfault", "subs", "sock_pending", "sock_backoff", "sock_stalled"]
 
@@ -149,6 +150,21 @@ async def drive(tl, gen, loop, net, log, ctx):
         await asyncio.sleep(1.0)
     elif tl == "steady":
         await asyncio.sleep(620.0)
+    elif tl == "cmd_pending":
+        # the link is lost, commands are submitted while it is down (held for up to 30 s),
+        # it comes back after a few refusals - shutdown may come at any point
+        await asyncio.sleep(1.0)
+        net.script += [("refuse", 0.0), ("refuse", 0.0), ("refuse", 0.0), ("accept", 0.7)]
+        c = net.current()
+        if c:
+            c.transport.peer_eof()
+        await asyncio.sleep(0.5)
+        try:
+            await w.at.air_conditioners[0].set_power(api.AcPowerControl.TURN_ON)
+            await w.at.air_conditioners[0].zones[0].set_damper_percentage(40)
+        except Exception:
+            pass
+        await asyncio.sleep(8.5)
     elif tl == "backoff":
         await asyncio.sleep(1.0)
         net.script += [("refuse", 0.0), ("refuse", 0.0), ("accept", 0.7)]
@@ -158,7 +174,7 @@ async def drive(tl, gen, loop, net, log, ctx):
         await asyncio.sleep(8.0)
 
 
-def run_once(gen, tl, trigger, reinit=False, pending=4, double=False):
+def run_once(gen, tl, trigger, reinit=False, pending=4, double=False, idle=1000.0):
     """trigger: None (reference run) | ('iter', k) | ('time', t)."""
     out = {"fired": False}
 
@@ -247,7 +263,7 @@ def run_once(gen, tl, trigger, reinit=False, pending=4, double=False):
         tasks = [t for t in tasks if "do_send" not in H.describe_tasks([t])[0]]
         out["tasks"] = H.describe_tasks(tasks)
         out["timers"] = H.describe_timers(timers)
-        await asyncio.sleep(1000.0)
+        await asyncio.sleep(idle)
         await quiesce(loop)
         out["after"] = [(k, H.jsonable(d)) for _, _, k, d in log.since(out["mark"])
                         if k in ("NET.connect_attempt", "NET.write", "NET.open")
@@ -347,8 +363,11 @@ def cases(tier, seed):
                     trigs.append(["time", t - 1e-6])
                 trigs.append(["time", t + 1e-6])
             for i in range(0, len(trigs), 12):
+                # (the idle time between shutdown and the re-init: long, or short enough for
+                # anything the old life still held to be unexpired)
                 yield {"gen": gen, "tl": tl, "trigs": trigs[i:i + 12],
-                       "reinit": (i // 12) % 3 != 1, "double": (i // 12) % 4 == 3}
+                       "reinit": (i // 12) % 3 != 1, "double": (i // 12) % 4 == 3,
+                       "idle": 1000.0 if (i // 12) % 2 else 0.5}
         if tier == "thorough":
             for pending in (1, 2, 7, 10):
                 K, times = reference(gen, "sock_pending")
@@ -474,7 +493,7 @@ def run_case(case):
     dec = 0
     for trig in case["trigs"]:
         o = run_once(gen, tl, tuple(trig), case["reinit"], case.get("pending", 4),
-                     case.get("double", False))
+                     case.get("double", False), case.get("idle", 1000.0))
         vv, oo = judge(gen, tl, trig, o, case["reinit"])
         viol += vv
         for k, n in oo.items():
